@@ -640,7 +640,7 @@ func (p *prop) Generate(rng *core.Rand, tier string, emit func(string)) {
 	nScen, maxCfgs, storms, stormLen := 45, 5, 1, 40
 	switch tier {
 	case "thorough":
-		nScen, maxCfgs, storms, stormLen = 400, 8, 4, 200
+		nScen, maxCfgs, storms, stormLen = 300, 8, 3, 200
 	case "search":
 		nScen, maxCfgs, storms, stormLen = 120, 6, 2, 60
 	}
